@@ -94,13 +94,14 @@ def isPrivateUpper (s : String) : Bool := match s.toList with
 
 /-- the direct children of one struct type (`getFields`) -/
 def getFields (priv : String → Bool) (d : TypeDecl) : List Field :=
-  d.fields.filterMap fun f =>
+  d.fields.flatMap fun f =>
     match f.names with
-    | [n] => if priv n then none else let (fl, skip) := getField n f; if skip then none else some fl
     | [] =>
       let n := printed f.ty
-      if priv n then none else let (fl, skip) := getField n f; if skip then none else some { fl with embedded := true }
-    | _ => none
+      if priv n then [] else let (fl, skip) := getField n f; if skip then [] else [{ fl with embedded := true }]
+    | ns =>
+      -- one field per name: `A, B int32` declares two fields with the same type and tag
+      ns.filterMap fun n => if priv n then none else let (fl, skip) := getField n f; if skip then none else some fl
 
 /-- `getChildren`: resolve struct-typed children recursively; embedded structs are hoisted -/
 def getChildren (priv : String → Bool) (decls : List TypeDecl) : Nat → String → List Field
